@@ -1,4 +1,7 @@
-use std::{collections::HashMap, sync::Arc};
+use std::{
+    collections::{HashMap, HashSet},
+    sync::Arc,
+};
 
 use ckb_merkle_mountain_range::leaf_index_to_pos;
 use ckb_network::{CKBProtocolContext, PeerIndex};
@@ -50,6 +53,17 @@ impl<'a> GetTransactionsProofProcess<'a> {
         let last_block = snapshot
             .get_block(&last_block_hash)
             .expect("block should be in store");
+
+        let mut uniq = HashSet::new();
+        if !self
+            .message
+            .tx_hashes()
+            .iter()
+            .all(|tx_hash| uniq.insert(tx_hash.as_slice()))
+        {
+            return StatusCode::MalformedProtocolMessage
+                .with_context("duplicate transaction hash exists");
+        }
 
         let (found, missing): (Vec<_>, Vec<_>) = self
             .message
